@@ -477,6 +477,134 @@ pub mod fake_std {
         }
     }
 
+    /// `std::collections` whose hash containers iterate in an order that is a function of
+    /// their contents only (fixed hasher), so that a simulated run replays exactly.
+    pub mod collections {
+        pub use ::std::collections::{BTreeMap, BTreeSet, BinaryHeap, VecDeque, btree_map, hash_map, hash_set};
+        use ::std::hash::{BuildHasherDefault, Hash};
+        use ::std::ops::{Deref, DerefMut};
+
+        /// FNV-1a: deterministic, no per-process key.
+        #[derive(Default, Clone, Copy, Debug)]
+        pub struct FixedHasher(u64);
+
+        impl ::std::hash::Hasher for FixedHasher {
+            fn finish(&self) -> u64 {
+                self.0
+            }
+            fn write(&mut self, bytes: &[u8]) {
+                let mut h = if self.0 == 0 { 0xcbf2_9ce4_8422_2325 } else { self.0 };
+                for b in bytes {
+                    h ^= u64::from(*b);
+                    h = h.wrapping_mul(0x0000_0100_0000_01B3);
+                }
+                self.0 = h;
+            }
+        }
+
+        type Fixed = BuildHasherDefault<FixedHasher>;
+
+        #[derive(Debug, Clone)]
+        pub struct HashMap<K, V>(::std::collections::HashMap<K, V, Fixed>);
+
+        impl<K, V> HashMap<K, V> {
+            #[allow(clippy::new_without_default)]
+            pub fn new() -> Self {
+                Self(::std::collections::HashMap::with_hasher(Fixed::default()))
+            }
+            pub fn with_capacity(n: usize) -> Self {
+                Self(::std::collections::HashMap::with_capacity_and_hasher(n, Fixed::default()))
+            }
+        }
+        impl<K, V> Default for HashMap<K, V> {
+            fn default() -> Self {
+                Self::new()
+            }
+        }
+        impl<K, V> Deref for HashMap<K, V> {
+            type Target = ::std::collections::HashMap<K, V, Fixed>;
+            fn deref(&self) -> &Self::Target {
+                &self.0
+            }
+        }
+        impl<K, V> DerefMut for HashMap<K, V> {
+            fn deref_mut(&mut self) -> &mut Self::Target {
+                &mut self.0
+            }
+        }
+        impl<K: Eq + Hash, V> FromIterator<(K, V)> for HashMap<K, V> {
+            fn from_iter<I: IntoIterator<Item = (K, V)>>(iter: I) -> Self {
+                let mut m = Self::new();
+                m.0.extend(iter);
+                m
+            }
+        }
+        impl<'a, K, V> IntoIterator for &'a HashMap<K, V> {
+            type Item = (&'a K, &'a V);
+            type IntoIter = ::std::collections::hash_map::Iter<'a, K, V>;
+            fn into_iter(self) -> Self::IntoIter {
+                self.0.iter()
+            }
+        }
+        impl<K, V> IntoIterator for HashMap<K, V> {
+            type Item = (K, V);
+            type IntoIter = ::std::collections::hash_map::IntoIter<K, V>;
+            fn into_iter(self) -> Self::IntoIter {
+                self.0.into_iter()
+            }
+        }
+
+        #[derive(Debug, Clone)]
+        pub struct HashSet<T>(::std::collections::HashSet<T, Fixed>);
+
+        impl<T> HashSet<T> {
+            #[allow(clippy::new_without_default)]
+            pub fn new() -> Self {
+                Self(::std::collections::HashSet::with_hasher(Fixed::default()))
+            }
+            pub fn with_capacity(n: usize) -> Self {
+                Self(::std::collections::HashSet::with_capacity_and_hasher(n, Fixed::default()))
+            }
+        }
+        impl<T> Default for HashSet<T> {
+            fn default() -> Self {
+                Self::new()
+            }
+        }
+        impl<T> Deref for HashSet<T> {
+            type Target = ::std::collections::HashSet<T, Fixed>;
+            fn deref(&self) -> &Self::Target {
+                &self.0
+            }
+        }
+        impl<T> DerefMut for HashSet<T> {
+            fn deref_mut(&mut self) -> &mut Self::Target {
+                &mut self.0
+            }
+        }
+        impl<T: Eq + Hash> FromIterator<T> for HashSet<T> {
+            fn from_iter<I: IntoIterator<Item = T>>(iter: I) -> Self {
+                let mut m = Self::new();
+                m.0.extend(iter);
+                m
+            }
+        }
+        impl<'a, T> IntoIterator for &'a HashSet<T> {
+            type Item = &'a T;
+            type IntoIter = ::std::collections::hash_set::Iter<'a, T>;
+            fn into_iter(self) -> Self::IntoIter {
+                self.0.iter()
+            }
+        }
+        impl<T> IntoIterator for HashSet<T> {
+            type Item = T;
+            type IntoIter = ::std::collections::hash_set::IntoIter<T>;
+            fn into_iter(self) -> Self::IntoIter {
+                self.0.into_iter()
+            }
+        }
+    }
+
     /// `std::time` reading the simulated clock when one is installed.
     pub mod time {
         pub use ::std::time::{Duration, SystemTimeError, UNIX_EPOCH};
